@@ -310,7 +310,7 @@ def leaf_text(v):
 
 
 HOSTILE_TEXT = ['abc', '', ' 7 ', '+5', '1_0', '1.5', '2.0', 'true', 'TRUE', '1', '0', 'maybe', '-0', '99999999999999999999999',
-                '2020-01-02', '2020-13-45', 'P1D', 'None', '[1]', '{"a": 1}', '٣', '1e3', 'NaN', 'INF', '256', '-129']
+                '2020-01-02', '2020-13-45', 'P1D', 'None', '[1]', '{"a": 1}', '1e3', 'NaN', 'INF', '256', '-129']
 
 
 # ====================================================================== native values -> neutral form, and the oracle
@@ -599,6 +599,13 @@ class XmlEnc(object):
                     kids.append(self.element(f['ty'], x, dns, f['name']))
                 continue
             kids.append(self.element(f['ty'], x, dns, f['name'], f['nillable']))
+        attr_fields = [f for f in flat_fields(self.desc, cid) if f['kind'] == 'attr']
+        if attr_fields and kids and self.roll():
+            # an attribute of a child named like an XmlAttribute member of this (the parent's) class
+            f = self.rng.choice(attr_fields)
+            k = self.rng.choice(kids)
+            k.set(f['name'], self.rng.choice([leaf_text(gen_leaf(self.rng, f['ty'][1])), 'abc', 'true', '7', '']))
+            self.muts.append('child @%s' % f['name'])
         if self.roll() and kids:
             r = self.rng.random()
             if r < 0.3:
@@ -925,6 +932,77 @@ def oracle_xml(check, tier):
                     if bad:
                         check.fail(xml_key('header', pname, val, hmuts, bad),
                                    'Soap11(validator=%r): ctx.in_header is %s where %s is declared (at %s)' % (val, bad[2], bad[1], bad[0]), rp)
+
+
+def oracle_xml_retag_all(check, tier):
+    """the property's own quantifier on a fixed interface: every element position of a valid request retagged
+    with every class key of interface.classes (plus unknown names), XmlDocument and Soap11, validator None and soft"""
+    from lxml import etree
+    from spyne.protocol.xml import XmlDocument
+    from spyne.protocol.soap import Soap11
+    rng = check.rng
+    leaf_fields = [{'name': 'l_%s' % p, 'ty': ('prim', p), 'min': 0, 'max': 1, 'nillable': True, 'kind': 'elem'} for p in RICH_PRIMS]
+    desc = {'classes': [
+        {'ns': TNS, 'name': 'Leaves', 'parent': None, 'fields': leaf_fields},
+        {'ns': TNS, 'name': 'Base', 'parent': None, 'fields': [
+            {'name': 'i', 'ty': ('prim', 'int'), 'min': 0, 'max': 1, 'nillable': True, 'kind': 'elem'},
+            {'name': 'a', 'ty': ('prim', 'i32'), 'min': 0, 'max': 1, 'nillable': True, 'kind': 'attr'}]},
+        {'ns': TNS, 'name': 'Sub', 'parent': 1, 'fields': [
+            {'name': 't', 'ty': ('prim', 'text'), 'min': 0, 'max': 1, 'nillable': True, 'kind': 'elem'}]},
+        {'ns': 'urn:u', 'name': 'Other', 'parent': None, 'fields': [
+            {'name': 's', 'ty': ('prim', 'text'), 'min': 0, 'max': 1, 'nillable': True, 'kind': 'elem'}]},
+        {'ns': TNS, 'name': 'Holder', 'parent': None, 'fields': [
+            {'name': 'b', 'ty': ('ref', 1), 'min': 0, 'max': 1, 'nillable': True, 'kind': 'elem'},
+            {'name': 'o', 'ty': ('ref', 3), 'min': 0, 'max': 1, 'nillable': True, 'kind': 'elem'},
+            {'name': 'ints', 'ty': ('arr', ('prim', 'int')), 'min': 0, 'max': 1, 'nillable': True, 'kind': 'elem'},
+            {'name': 'bases', 'ty': ('arr', ('ref', 1)), 'min': 0, 'max': 1, 'nillable': True, 'kind': 'elem'},
+            {'name': 'm', 'ty': ('prim', 'date'), 'min': 0, 'max': None, 'nillable': True, 'kind': 'elem'},
+            {'name': 'lv', 'ty': ('ref', 0), 'min': 0, 'max': 1, 'nillable': True, 'kind': 'elem'}]}]}
+    classes = build_spyne(desc)
+    params = [('ref', 4), ('prim', 'dec'), ('arr', ('ref', 2))]
+    apps = {}
+    for pname, pcls in (('XmlDocument', XmlDocument), ('Soap11', Soap11)):
+        for val in (None, 'soft'):
+            apps[(pname, val)] = build_app(classes, params, pcls(validator=val), pcls())
+    app0, _, in_msg = apps[('XmlDocument', None)]
+    d2 = msg_desc(desc, classes, in_msg)
+    reg = registry_of(app0, classes + [in_msg])
+    keys = sorted(k for k, t, _ in reg if k.startswith('{'))
+    enc = XmlEnc(rng, d2, keys, mutate_p=0.0)
+    pcs = list(in_msg._type_info.values())
+    mcid = len(d2['classes']) - 1
+    lv = ('obj', 0, [gen_leaf(rng, p) for p in RICH_PRIMS])
+    base = ('obj', 1, [('int', 5), ('int', 6)])
+    sub = ('obj', 2, [('int', 7), ('int', 8), ('text', 'tt')])
+    holder = ('obj', 4, [base, ('obj', 3, [('text', 'q')]), ('list', [('int', 1), ('int', 2)]), ('list', [base, sub]),
+                         ('list', [('date', (2020, 1, 2))]), lv])
+    v = ('obj', mcid, [holder, ('dec', '1.50'), ('list', [sub])])
+    doc, _ = enc.document(('ref', mcid), v, TNS, 'f')
+    elts = [e for e in doc.iter() if isinstance(e.tag, str)]
+    values = []
+    for k in keys:
+        ns, name = xsi_key_to_qname(k)
+        values.append(enc.lexical(ns, name) if ns in enc.prefix else name)
+    values += ['n0:Nope', 'zz:Base', 'Base', 'xs:anyType', 'xs:nope']
+    for idx in range(len(elts)):
+        for val_txt in values:
+            d = copy.deepcopy(doc)
+            e = [x for x in d.iter() if isinstance(x.tag, str)][idx]
+            e.set('{%s}type' % XSI, val_txt)
+            body = etree.tostring(d)
+            env = etree.Element('{%s}Envelope' % SOAP_ENV, nsmap={'soap': SOAP_ENV})
+            etree.SubElement(env, '{%s}Body' % SOAP_ENV).append(d)
+            sbody = etree.tostring(env)
+            muts = ['%s xsi:type=%s' % (etree.QName(e).localname, val_txt)]
+            for (pname, val), (app, cap, _) in apps.items():
+                if pname == 'Soap11' and (idx + len(val_txt)) % 3:
+                    continue
+                b = body if pname == 'XmlDocument' else sbody
+                res = drive(app, b, cap)
+                check.count(('oracle-retag', pname, val, idx, val_txt))
+                judge_call(check, 'retag', pname, val, pcs, res, muts,
+                           {'kind': 'xml-request', 'protocol': pname, 'validator': val, 'universe': desc, 'params': params,
+                            'body': b.decode(), 'mutations': muts, 'header': None})
 
 
 # ====================================================================== dict documents (JSON / YAML / MessagePack)
@@ -1593,6 +1671,7 @@ def run(check):
     corr_xml(check, tier)
     lib.flush_correspondences(check)
     oracle_xml(check, tier)
+    oracle_xml_retag_all(check, tier)
     corr_dict(check, tier)
     lib.flush_correspondences(check)
     oracle_dict(check, tier)
